@@ -2,7 +2,7 @@
    (get_local_time_zone, get_local_time_zone_format) as functions of the four
    values read from the `time` module, and of the Unix-epoch conversions of
    data.py.  No proofs in here. *)
-From Coq Require Import ZArith QArith List Bool String Ascii.
+From Coq Require Import ZArith QArith Qround List Bool String Ascii.
 From Iso Require Import Spec.Cal Model.Num Model.Helpers Model.Duration Model.TimePoint.
 Import ListNotations.
 Open Scope Z_scope.
@@ -59,10 +59,10 @@ Definition from_unix (md : mode) (n : Q) (local : option (Z * Z)) : option tp :=
   | None => None
   end.
 
-(* TimePoint.seconds_since_unix_epoch: str(int(86400*days + seconds)) *)
+(* TimePoint.seconds_since_unix_epoch: str(floor(86400*days + seconds))  (fix: commit ecba00f; it was int(), truncating toward zero) *)
 Definition seconds_since_unix_epoch (md : mode) (p : tp) : option Z :=
   match tp_sub md p unix_ref with
   | Some d => let '(days, secs) := days_and_seconds md d in
-              Some (qtrunc (qz (86400 * days)%Z + secs))
+              Some (Qfloor (qz (86400 * days)%Z + secs))
   | None => None
   end.
